@@ -205,6 +205,33 @@ def producer_class(mb_q, sig, out_name):
     return None
 
 
+def upstream_variant(mb_q, sig, out_name):
+    """call-site class of the nearest operator upstream of signature output `out_name` that belongs to a structurally recognisable
+    class (an `op_variant` with a ':' part), or None.  A deviation first seen at an ordinary operator downstream of such an operator is
+    attributed to it (its own deviation may stay below the localisation tolerance and be amplified later)."""
+    m = pl.read(mb_q)
+    sd = [x for x in (m.signatureDefs or []) if x.signatureKey.decode() == sig]
+    if not sd:
+        return None
+    sg = m.subgraphs[sd[0].subgraphIndex]
+    start = next((tm.tensorIndex for tm in sd[0].outputs if tm.name.decode() == out_name), None)
+    if start is None:
+        return None
+    prod = {o: op for op in sg.operators for o in op.outputs if o != -1}
+    seen, frontier = set(), [start]
+    while frontier:
+        t = frontier.pop(0)
+        if t in seen or t not in prod:
+            continue
+        seen.add(t)
+        op = prod[t]
+        v = op_variant(m, sg, op)
+        if ":" in v:
+            return v
+        frontier += [i for i in op.inputs if i != -1]
+    return None
+
+
 def abs_magnitudes(interp, ref_mb, data, ctx=None):
     """output magnitudes of the reference model run on |inputs| with |constants|: the scale of the accumulated terms,
     which (unlike the output magnitude itself) does not shrink under cancellation"""
@@ -316,6 +343,8 @@ def compare_float_modes(ctx, interp, case, res, fail):
                     cls = localise(interp, res["out"], ref, data, lambda mag_: max(rel * mag_, floor) + (1e-3 if drq else 1e-5), ctx)
                     if cls is None:
                         cls = producer_class(res["out"], sig, k)
+                    if cls is None or ":" not in cls:
+                        cls = upstream_variant(res["out"], sig, k) or cls
                     return fail(f"output {k} differs from the float model with dequantized constants by "
                                 f"{float(np.max(np.abs(ya - yb))):.4g} (tolerance {tol:.4g}, modes {sorted(modes)}, first operator off: {cls})",
                                 f"c06-mismatch:{cls}")
@@ -411,6 +440,8 @@ def compare_static(ctx, interp, case, res, fail, max_ops=4):
                                    lambda mag_: (c_ref if which != "float output" else c_float) * mag_ + 8 * step + 1e-3 * mag_ + 1e-7, ctx, constant=const)
                     if cls is None:   # deviation below the localisation tolerance everywhere: blame the output's own producer
                         cls = producer_class(res["out"], sig, k)
+                    if cls is None or ":" not in cls:
+                        cls = upstream_variant(res["out"], sig, k) or cls
                     if const:
                         own = producer_class(res["out"], sig, k)
                         if own and ":" in own:
